@@ -503,11 +503,7 @@ func (m *VM) step(i int, op *Op) *Rec {
 			if err == nil && a != nil {
 				ks, lim, via := op.KS, op.Lim, op.Via
 				m.put(op.Out, &AzObj{Az: a, Tok: op.A, Lim: op.Lim, Scratch: func() biscuit.Authorizer {
-					s, serr, sok := m.newAuthorizer(t, ks, lim, via)
-					if !sok || serr != nil {
-						return nil
-					}
-					return s
+					return m.scratchAuthorizer(t, ks, lim, via)
 				}})
 			}
 		}
@@ -887,7 +883,7 @@ func (m *VM) doVerify(rec *Rec, op *Op, t *TokObj) {
 	}
 	loaded := false
 	if op.Has("via-load") && op.Az != nil {
-		if s, serr, sok := m.newAuthorizer(t, op.KS, op.Lim, op.Via); sok && serr == nil && s != nil {
+		if s := m.scratchAuthorizer(t, op.KS, op.Lim, op.Via); s != nil {
 			loaded = m.addViaLoad(s, a, op.Az, op.Perm, op.Has("permute-checks"))
 		}
 	}
